@@ -19,7 +19,7 @@ from dateutil.parser import parse
 
 from .utils.xml import (
     remove_node, replace_node, insert_node, find_child, find_child_by_id,
-    append_node, move_nodes
+    append_node, move_nodes, swap_nodes
 )
 from .utils import s3
 from .moselements import Story, Item
@@ -1762,10 +1762,7 @@ class EAStorySwap(ElementAction):
             raise MosMergeError(
                 f"{self.__class__.__name__} error in {self.message_id} - cannot swap a story with itself"
             )
-        remove_node(parent=ro.base_tag, node=story1)
-        remove_node(parent=ro.base_tag, node=story2)
-        insert_node(parent=ro.base_tag, node=story2, index=story1_index)
-        insert_node(parent=ro.base_tag, node=story1, index=story2_index)
+        swap_nodes(parent=ro.base_tag, node1=story1, node2=story2)
         return ro
 
     def inspect(self):
@@ -1839,10 +1836,7 @@ class EAItemSwap(ElementAction):
             raise MosMergeError(
                 f"{self.__class__.__name__} error in {self.message_id} - cannot swap an item with itself"
             )
-        remove_node(parent=story, node=item1)
-        remove_node(parent=story, node=item2)
-        insert_node(parent=story, node=item2, index=item1_index)
-        insert_node(parent=story, node=item1, index=item2_index)
+        swap_nodes(parent=story, node1=item1, node2=item2)
         return ro
 
     def inspect(self):
